@@ -263,6 +263,24 @@ pub fn far_deadline() -> Option<Instant> {
 
 // Runs `body` with `$d` bound to `&mut <hook>` for the requested adapter stack
 // over a recording hook.
+// the public entry point that runs the algorithm (see gen.raw_line)
+macro_rules! call_entry {
+    ($via:expr, $alg:expr, $d:expr, $old:expr, $or:expr, $new:expr, $nr:expr, $dl:expr) => {{
+        use similar::algorithms::{lcs, myers, patience};
+        use similar::Algorithm as A;
+        match ($via, $alg) {
+            ("module", A::Myers) => myers::diff_deadline($d, $old, $or, $new, $nr, $dl),
+            ("module", A::Patience) => patience::diff_deadline($d, $old, $or, $new, $nr, $dl),
+            ("module", A::Lcs) => lcs::diff_deadline($d, $old, $or, $new, $nr, $dl),
+            ("module_nodl", A::Myers) => myers::diff($d, $old, $or, $new, $nr),
+            ("module_nodl", A::Patience) => patience::diff($d, $old, $or, $new, $nr),
+            ("module_nodl", A::Lcs) => lcs::diff($d, $old, $or, $new, $nr),
+            ("dispatch_nodl", _) => similar::algorithms::diff($alg, $d, $old, $or, $new, $nr),
+            _ => similar::algorithms::diff_deadline($alg, $d, $old, $or, $new, $nr, $dl),
+        }
+    }};
+}
+
 macro_rules! with_stack {
     ($stack:expr, $fail:expr, $old:expr, $new:expr, |$d:ident| $body:expr) => {{
         use similar::algorithms::{Compact, NoFinishHook, Replace};
@@ -389,6 +407,8 @@ fn case_raw(kv: &Kv) -> String {
     let dl = parse_opt(kv["dl"]);
     let fail = parse_opt(kv["fail"]).map(|x| x as usize);
     let stack = kv["stack"];
+    let via = kv.get("via").copied().unwrap_or("dispatch");
+    assert!(dl.is_none() || !via.ends_with("_nodl"));
     CMPS.with(|c| c.set(0));
     POST.with(|c| c.set(0));
     let deadline = install_clock(dl);
@@ -396,15 +416,7 @@ fn case_raw(kv: &Kv) -> String {
         None => {
             let old = &s.old[..];
             let new = &s.new[..];
-            with_stack!(stack, fail, old, new, |d| similar::algorithms::diff_deadline(
-                alg,
-                d,
-                old,
-                os..oe,
-                new,
-                ns..ne,
-                deadline
-            ))
+            with_stack!(stack, fail, old, new, |d| call_entry!(via, alg, d, old, os..oe, new, ns..ne, deadline))
         }
         Some((ko, kn)) => {
             let old = &Off {
@@ -415,15 +427,7 @@ fn case_raw(kv: &Kv) -> String {
                 off: kn,
                 v: s.new.clone(),
             };
-            with_stack!(stack, fail, old, new, |d| similar::algorithms::diff_deadline(
-                alg,
-                d,
-                old,
-                os..oe,
-                new,
-                ns..ne,
-                deadline
-            ))
+            with_stack!(stack, fail, old, new, |d| call_entry!(via, alg, d, old, os..oe, new, ns..ne, deadline))
         }
     };
     let probes = if dl.is_some() {
